@@ -207,8 +207,12 @@ def overload_task(task):
     PTS = ['int', 'byte', 'bool', 'string', 'const int[]', 'const byte[]', 'int[]', 'byte[]']
     RET = ['int', 'byte', 'bool', 'string']
     RETV = {'int': '1', 'byte': "'r'", 'bool': 'true', 'string': '"r"'}
-    ARGS = ['5', '300', "'c'", 'bv', 'iv', 'bv + 1', 'iv + 1', 'true', '"s"', 'sv', 'ia', 'cia', 'ba', 'cba', '[1, 2]', '[bv, 1]', '[iv]', '[]', "['a']", 'K', 'KB']
-    sets = list(itertools.permutations(PTS, 3))[task['lo']::task['step']]
+    ARGS = ['5', '300', "'c'", 'bv', 'iv', 'bv + 1', 'iv + 1', 'true', '"s"', 'sv', 'ia', 'cia', 'ba', 'cba', '[1, 2]', '[bv, 1]', '[iv, bv]', '[]', "['a', 1]", 'K', 'KB']
+    allsets = list(itertools.permutations(PTS, 3))
+    # sets with several coercion candidates for one argument (array types, int/byte) always; the rest sampled in the quick tier
+    core = [s for s in allsets if sum(1 for t in s if t.endswith('[]')) >= 2 or set(s) >= {'int', 'byte'}]
+    rest = [s for s in allsets if s not in core]
+    sets = core[task['lo']::16] + rest[task['lo']::task['step']]
     for ps in sets:
         for pos in range(4):
             for arg in ARGS:
@@ -276,18 +280,15 @@ def main():
     chunks('index', itertools.product(S.E, ['5', 'bv', 'iv', 'true', '"s"', 'bv + 1', 'ia']), 6)
     n = 0
     for r in pmap(table_task, tasks, limit=900):
-        for v in r.get('violations', []):
-            rep.violation(v)
+        rep.absorb(r)
         n += r.get('n', 0)
     for r in pmap(misc_task, [dict(lo=i, step=8) for i in range(8)], limit=600):
-        for v in r.get('violations', []):
-            rep.violation(v)
+        rep.absorb(r)
         n += r.get('n', 0)
     step = 16 if quick else 1
     no = 0
     for r in pmap(overload_task, [dict(lo=i, step=16 * step) for i in range(16)], limit=1200):
-        for v in r.get('violations', []):
-            rep.violation(v)
+        rep.absorb(r)
         no += r.get('n', 0)
     rep.counts['evaluations'] += n + no
     rep.cov['rule_position_programs'] = n
